@@ -152,7 +152,7 @@ def rand_crystal(rng, **kw):
 
 
 NAMED = ('sc', 'fcc', 'bcc', 'diamond', 'hcp', 'square', 'tria', 'honey', 'lieb', 'kagome', 'omega', 'rumpled',
-         'dtria', 'b2', 'l12', 'tet', 'rect', 'tric', 'mono', 'p4m', 'p2', 'mono2', 'dhcp', 'omega_perm', 'rumpled_spec', 'dtria_spec')
+         'dtria', 'b2', 'l12', 'tet', 'rect', 'tric', 'mono', 'p4m', 'p2', 'mono2', 'dhcp', 'omega_perm', 'rumpled_spec', 'dtria_spec', 'p2two')
 
 
 def named(name):
@@ -199,6 +199,9 @@ def named(name):
         return C(np.diag([1., 1., 1.15]), [[np.zeros(3)], [np.array(v) for v in ((x, y, 0.5), (-y, x, 0.5), (-x, -y, 0.5), (y, -x, 0.5))]]), 0, 1.2
     if name == 'p2':    # 2-D oblique, two atoms on a general position: 2-fold axis only, sites have a 2-D vector basis
         return C(np.array([[1., 0.23], [0., 0.91]]), [np.array([0.18, 0.11]), np.array([-0.18, -0.11])]), 0, 1.05
+    if name == 'p2two':  # as p2 with two orbits (four like atoms at +-u1, +-u2): several Wyckoff sets, each with a 2-D site vector basis
+        return C(np.array([[1., 0.23], [0., 0.91]]), [np.array([0.18, 0.11]), np.array([-0.18, -0.11]),
+                                                     np.array([0.41, -0.27]), np.array([-0.41, 0.27])]), 0, 0.75
     if name == 'mono2':  # monoclinic 2/m, two atoms on the mirror plane (site vector basis in the plane)
         return C(np.array([[1., 0.28, 0.], [0., 0.95, 0.], [0., 0., 1.12]]), [np.array([0.16, 0.12, 0.]), np.array([-0.16, -0.12, 0.])]), 0, 1.13
     raise ValueError(name)
